@@ -18,7 +18,7 @@ Proof. exact rollback_restores. Qed.
 (* the rest of the program behaves exactly as if the rolled-back transaction had never been
    attempted: run (p1 ++ failed ++ [Rollback] ++ rest) = run (p1 ++ rest), as whole states *)
 Theorem C06_as_if_never_attempted : forall g p1 failed rest,
-  cfg_consistent g -> flat_hier g -> at_boundary (run g p1) -> no_commit failed ->
+  cfg_consistent g -> hier_consistent g -> at_boundary (run g p1) -> no_commit failed ->
   run g (p1 ++ failed ++ [Rollback] ++ rest) = run g (p1 ++ rest).
 Proof. exact as_if_never_attempted_reachable. Qed.
 
